@@ -626,7 +626,7 @@ theorem holdsWith_of_inv {s : St} (h : Inv s) (m : Nat) (pendOK gone evicted : N
     holdsWith s.n m pendOK gone evicted (obsOf s m) = true := by
   unfold holdsWith
   simp only [Bool.and_eq_true]
-  refine ⟨⟨⟨⟨⟨⟨?_, ?_⟩, ?_⟩, ?_⟩, ?_⟩, ?_⟩, okCounts_obsOf s m⟩
+  refine ⟨⟨⟨⟨⟨⟨⟨?_, ?_⟩, ?_⟩, ?_⟩, ?_⟩, ?_⟩, okCounts_obsOf s m⟩, by simp [okAlt, obsOf]⟩
   · simp [obsOf]
   · simp [obsOf]
   · rw [List.all_eq_true]; intro i hi; exact okClient_obsOf h m pendOK gone hp hg i (List.mem_range.mp hi)
@@ -668,5 +668,56 @@ theorem pendSyn_complete (ops : List Op) : ∀ acc : Nat → Bool, completeOps o
     have := ih _ hc c0 h
     cases op <;> simp only [pendStep, upd] at this <;> grind
 
+
+/-! ## Read loops (adapter mode) -/
+
+theorem inv_settle {s : St} (h : Inv s) : Inv (settle s) := by
+  constructor <;> simp only [settle, dead] <;> grind [Inv]
+
+theorem inv_stepAdp {s : St} (h : Inv s) (op : Op) : Inv (stepAdp .repaired s op) :=
+  inv_settle (inv_step h op)
+
+theorem inv_runAdp (fops : List FOp) : ∀ {s : St}, Inv s → Inv (runAdp .repaired s fops) := by
+  unfold runAdp
+  induction (fops.map Prod.fst) with
+  | nil => intro s h; exact h
+  | cons op ops ih => intro s h; exact ih (inv_stepAdp h op)
+
+/-- after every adapter-mode step each connection whose loop must have ended is torn down -/
+def Settled (s : St) : Prop := ∀ c, dead s c = true → s.gone c = true
+
+theorem settled_settle (s : St) : Settled (settle s) := by
+  intro c
+  simp only [settle, dead]
+  grind
+
+theorem settle_frame (s : St) :
+    (settle s).n = s.n ∧ (settle s).pend = s.pend ∧ (settle s).opened = s.opened ∧ (settle s).broken = s.broken :=
+  ⟨rfl, rfl, rfl, rfl⟩
+
+theorem runAdp_n (fops : List FOp) : ∀ s : St, (runAdp .repaired s fops).n = s.n := by
+  unfold runAdp
+  induction (fops.map Prod.fst) with
+  | nil => intro s; rfl
+  | cons op ops ih => intro s; exact (ih _).trans (step_frame s op).1
+
+theorem runAdp_pend (fops : List FOp) : ∀ (s : St) (acc : Nat → Bool), (∀ c, s.pend c ≠ none → acc c = true) →
+    ∀ c, (runAdp .repaired s fops).pend c ≠ none → (fops.map Prod.fst).foldl pendStep acc c = true := by
+  unfold runAdp
+  induction (fops.map Prod.fst) with
+  | nil => intro s acc h c hc; exact h c hc
+  | cons op ops ih =>
+    intro s acc h c hc
+    exact ih (stepAdp .repaired s op) (pendStep acc op) ((step_frame s op).2.2.2 acc h) c hc
+
+theorem runAdp_settled (fops : List FOp) (hne : fops ≠ []) : ∀ s : St, Settled (runAdp .repaired s fops) := by
+  unfold runAdp
+  cases hm : fops.map Prod.fst with
+  | nil => cases fops <;> simp_all
+  | cons op ops =>
+    clear hm hne
+    induction ops generalizing op with
+    | nil => intro s; exact settled_settle _
+    | cons op' ops ih => intro s; exact ih op' (stepAdp .repaired s op)
 
 end Tunnox.C07
